@@ -148,8 +148,13 @@ package executor
 //@   at `opCtx.Doc.Operations.ForName(params.OperationName)` requires arg0 == opCtx.OperationName
 //@   at `validator.VariableValues(e.es.Schema(), opCtx.Operation, params.Variables)` requires arg1 == opCtx.Operation
 //@   at `validator.VariableValues(e.es.Schema(), opCtx.Operation, params.Variables)` ghost coerceFailed = callres1 != nil
+// the context mutators (complexity limit, ...) see the operation context complete: the coerced variables are in it
+// before the first of them runs
+//@   ghost coerced = nil
+//@   at `validator.VariableValues(e.es.Schema(), opCtx.Operation, params.Variables)` ghost coerced = callres0
+//@   at `p.MutateOperationContext(ctx, opCtx)` requires idx2 == 0 ==> opCtx.Variables == coerced
 //@   loop 1: invariant opCtx != nil && !rejected
-//@   loop 2: invariant opCtx != nil && !rejected && !coerceFailed && opCtx.Doc != nil && isValidated(opCtx.Doc) && opCtx.Operation != nil && opCtx.Operation == forName(opCtx.Doc.Operations, opCtx.OperationName)
+//@   loop 2: invariant (idx2 == 0 ==> opCtx.Variables == coerced) && opCtx != nil && !rejected && !coerceFailed && opCtx.Doc != nil && isValidated(opCtx.Doc) && opCtx.Operation != nil && opCtx.Operation == forName(opCtx.Doc.Operations, opCtx.OperationName)
 //@   ensures res0 != nil
 //@   ensures res1 == nil ==> !rejected && !coerceFailed
 //@   ensures res1 == nil ==> res0.Doc != nil && isValidated(res0.Doc) && res0.Operation != nil && res0.Operation == forName(res0.Doc.Operations, res0.OperationName)
@@ -162,7 +167,9 @@ package executor
 //@   requires e != nil
 //@   safe
 //@   ensures calls(operationMiddleware) == 1
+// (assumption: a generated executor always returns a response handler)
 //@ trusted (github.com/99designs/gqlgen/graphql.ExecutableSchema).Exec(ctx) (h)
+//@   ensures h != nil
 //@ trusted github.com/99designs/gqlgen/graphql.OneShot(resp) (h)
 //@   pure
 //@ trusted dyn:responses(ctx) (resp)
